@@ -1,21 +1,21 @@
 #!/bin/bash
-# sandbox_try.sh PATCH PROP... : like try_mutant.sh, but on private copies kept under /tmp/sb (verif synced from /verif at
+# sandbox_try.sh PATCH PROP... : like try_mutant.sh, but on private copies kept under ${SB:-/tmp/sb} (verif synced from /verif at
 # every call, repo = scratch worktree of /repo), so that /repo and /verif stay free.  `sandbox_try.sh --clean` removes them.
 set -u
-if [ "${1:-}" = "--clean" ]; then git -C /repo worktree remove --force /tmp/sb/repo 2>/dev/null; rm -rf /tmp/sb; exit 0; fi
+if [ "${1:-}" = "--clean" ]; then git -C /repo worktree remove --force ${SB:-/tmp/sb}/repo 2>/dev/null; rm -rf ${SB:-/tmp/sb}; exit 0; fi
 patch=$1; shift
-mkdir -p /tmp/sb
-[ -d /tmp/sb/repo ] || git -C /repo worktree add --detach /tmp/sb/repo HEAD >/dev/null 2>&1 || { echo "cannot create worktree"; exit 2; }
-git -C /tmp/sb/repo checkout -q --detach $(git -C /repo rev-parse HEAD) 2>/dev/null; git -C /tmp/sb/repo checkout -- .
-rsync -a --delete --exclude .build --exclude target --exclude replays --exclude .git --exclude evidence /verif/ /tmp/sb/verif/
-mkdir -p /tmp/sb/verif/evidence
-sed -i 's|path = "/repo"|path = "/tmp/sb/repo"|' /tmp/sb/verif/harness/Cargo.toml /tmp/sb/verif/harness_sd/Cargo.toml
-sed -i 's|path = \\"/repo\\"|path = \\"/tmp/sb/repo\\"|' /tmp/sb/verif/tools/gen_sysdata.py 2>/dev/null
-git -C /tmp/sb/repo apply "$patch" || { echo "patch does not apply"; exit 2; }
-cd /tmp/sb/verif
-export VERIF_REPO=/tmp/sb/repo
+mkdir -p ${SB:-/tmp/sb}
+[ -d ${SB:-/tmp/sb}/repo ] || git -C /repo worktree add --detach ${SB:-/tmp/sb}/repo HEAD >/dev/null 2>&1 || { echo "cannot create worktree"; exit 2; }
+git -C ${SB:-/tmp/sb}/repo checkout -q --detach $(git -C /repo rev-parse HEAD) 2>/dev/null; git -C ${SB:-/tmp/sb}/repo checkout -- .
+rsync -a --delete --exclude .build --exclude target --exclude replays --exclude .git --exclude evidence /verif/ ${SB:-/tmp/sb}/verif/
+mkdir -p ${SB:-/tmp/sb}/verif/evidence
+sed -i "s|path = \"/repo\"|path = \"${SB:-/tmp/sb}/repo\"|" ${SB:-/tmp/sb}/verif/harness/Cargo.toml ${SB:-/tmp/sb}/verif/harness_sd/Cargo.toml
+sed -i "s|path = \\\\\"/repo\\\\\"|path = \\\\\"${SB:-/tmp/sb}/repo\\\\\"|" ${SB:-/tmp/sb}/verif/tools/gen_sysdata.py 2>/dev/null
+git -C ${SB:-/tmp/sb}/repo apply "$patch" || { echo "patch does not apply"; exit 2; }
+cd ${SB:-/tmp/sb}/verif
+export VERIF_REPO=${SB:-/tmp/sb}/repo
 for p in "$@"; do
   echo "=== $p"
   timeout 1700 python3 tools/check.py $p --tier quick 2>/dev/null | grep -E "VIOLATION|KNOWN|PASS|FAIL" | cut -c1-300
 done
-git -C /tmp/sb/repo checkout -- .
+git -C ${SB:-/tmp/sb}/repo checkout -- .
